@@ -1,5 +1,6 @@
 """C09 -- grid tracks: T (Gen/GridTracksGen.v: THRESHOLDs, track-counting tables, AlignContent) + proofs (Props/C09.v)
-+ K (vh c09 cases: whole-API through detailed_layout_info vs Model/GridTracksRun.v over F32, bit for bit)
++ K (vh c09 cases: whole-API through detailed_layout_info vs Model/GridIntrinsicRun.v -- the whole track_sizing_algorithm with
+  the full step 11.5 of Model/GridIntrinsic.v -- over F32, bit for bit; the stage-1 class also vs Model/GridTracksRun.v)
 + search (vh c09 oracle: the property's clauses on DetailedGridInfo for a broad generator; known classes classified)."""
 from ..common import *
 from ..stages import *
@@ -8,16 +9,18 @@ CLAUSES = ['count', 'fixed', 'gutter', 'outer', 'fill']
 
 
 def shape(c):
-    """Cheap shape histogram of a K case (from the C ints): what the templates contain."""
-    # W H pad*4 bor*4 gap(2x2) jc ac | templates ...
+    """Cheap shape histogram of a K case (from the C ints): what the templates and items contain."""
+    # Wk W Hk H avail(2x2) pad*4 bor*4 gap(2x2) jc ac | templates ... | autos | items
     out = set()
-    if any(c[2:10]):
+    if c[0] == 1 or c[2] == 1:
+        out.add('indefinite container axis')
+    if any(c[8:16]):
         out.add('padding/border')
-    if c[10] == 1 or c[12] == 1:
+    if c[16] == 1 or c[18] == 1:
         out.add('percent gap')
-    if c[14] or c[15]:
+    if c[20] or c[21]:
         out.add('content alignment')
-    i = 16
+    i = 22
     for axis in range(2):
         n = c[i]
         i += 1
@@ -42,11 +45,33 @@ def shape(c):
                     out.add('percent')
                 if mn == 0 and mx == 0:
                     out.add('px')
+                if mn == 6 or mx == 6:
+                    out.add('min-content')
+                if mn == 7 or mx == 7:
+                    out.add('max-content')
+                if mx in (3, 4):
+                    out.add('fit-content')
+                if mn in (5, 6, 7) and mx in (0, 1):
+                    out.add('minmax(intrinsic, fixed)')
     for axis in range(2):
         n = c[i]
         i += 1 + 4 * n
         if n:
             out.add('grid-auto tracks')
+    n = c[i]
+    i += 1
+    spans = set()
+    for k in range(n):
+        it = c[i + 13 * k:i + 13 * k + 13]
+        spans.add(max(it[2], it[4]))
+        if it[0] == 1:
+            out.add('text item (min-content != max-content)')
+        if any(it[7:11]):
+            out.add('item margins')
+        if it[11] or it[12]:
+            out.add('item overflow hidden')
+    for sp in spans:
+        out.add('max item span %d' % sp)
     return out
 
 
@@ -54,7 +79,11 @@ def run(rep, tier, seed, replay=None):
     res, changed = proof_stage(rep, 'C09', extra_trusted=[
         'modelled by hand (tied by K only): Model/GridTracks.v = compute_explicit_grid_size_in_axis, initialize_grid_tracks, '
         'initialize_track_sizes, distribute_space_up_to_limits, maximise_tracks, find_size_of_fr, expand_flexible_tracks, '
-        'stretch_auto_tracks, distribute_item_space_to_base_size, align_tracks; step 11.5 only for span-1 items with known contributions',
+        'stretch_auto_tracks, distribute_item_space_to_base_size, align_tracks; Model/GridIntrinsic.v = resolve_intrinsic_track_sizes in full '
+        '(ItemBatcher, span-1 fast path, the six distribution steps, distribute_item_space_to_growth_limit, flush_planned_*), the items\' '
+        'content sizes as an oracle (K runs it with fixed-size leaves: contribution = fixed size, minimum capped by spanned_fixed_track_limit)',
+        'the inner loops of 11.5 (distribute_space_up_to_limits with arbitrary filters / flex-factor proportions / infinite limits) carry the fuel '
+        '2*len+8: enough on every K case (bit-exact agreement), proved enough only for the call shape of 11.6',
         'numeric theorems are over exact rationals (XQ); the F32 run of the same definitions is compared bit for bit but no rounding-error '
         'analysis connects the two',
         'u16 track counts modelled as N (no wrap-around below 65536 tracks)'])
@@ -63,7 +92,7 @@ def run(rep, tier, seed, replay=None):
     if rc != 0:
         rep.add_broken('build', 'harness', out[-1500:])
         return
-    n = 400 if tier == 'quick' else 6000
+    n = 1200 if tier == 'quick' else 9000
     if mine:
         n = max(n, 3000)
         rep.cov['fingerprint_escalation'] = mine
@@ -83,6 +112,14 @@ def run(rep, tier, seed, replay=None):
     except RuntimeError as ex:
         cases, impl = [], []
         rep.add_broken('correspondence', 'vh c09 cases', str(ex))
+    # `O` lines: the case once more in the stage-1 encoding (follows its R line) when it is in the stage-1 class
+    old_cases, old_impl, last_r = [], [], None
+    for l in out.split('\n'):
+        if l.startswith('R '):
+            last_r = [int(x) for x in l.split()[1:]]
+        elif l.startswith('O ') and last_r is not None:
+            old_cases.append([int(x) for x in l.split()[1:]])
+            old_impl.append(last_r)
     if hung is not None:
         how = 'does not terminate (killed after 90 s)' if rc == 124 else 'aborts (exit code %s)' % rc
         rep.add_broken('correspondence', 'vh c09 cases', 'the implementation %s on a K case' % how)
@@ -96,12 +133,19 @@ def run(rep, tier, seed, replay=None):
     if cases:
         try:
             with Lock('coq'):
-                rcm, outm, _ = coq_make(['Model/GridTracksRun.vo'])
+                rcm, outm, _ = coq_make(['Model/GridTracksRun.vo', 'Model/GridIntrinsicRun.vo'])
             if rcm != 0:
                 raise RuntimeError(outm[-1500:])
-            model = run_model('C09', 'From TV Require Import Model.GridTracksRun.', 'run_case', cases, scope='Z', elem='list Z', batch=200)
-            bad = diff_results(rep, 'DetailedGridInfo (track counts, sizes, gutters), container size, item offsets vs Model.GridTracksRun over F32',
-                               cases, impl, model)
+            # K2: every case through the whole track_sizing_algorithm with the full step 11.5 (Model/GridIntrinsic.v)
+            model = run_model('C09', 'From TV Require Import Model.GridIntrinsicRun.', 'run_case2', cases, scope='Z', elem='list Z', batch=200)
+            bad = diff_results(rep, 'DetailedGridInfo (track counts, sizes, gutters), container size, item offsets vs Model.GridIntrinsicRun '
+                                    '(track_sizing_algorithm_full) over F32', cases, impl, model)
+            # K1: the stage-1 class also through the stage-1 runner (resolve_intrinsic_span1: what the q_axis witnesses use)
+            if old_cases:
+                k1 = old_cases if tier != 'quick' or mine else old_cases[:150]
+                model1 = run_model('C09a', 'From TV Require Import Model.GridTracksRun.', 'run_case', k1, scope='Z', elem='list Z', batch=200)
+                bad += diff_results(rep, 'stage-1 class vs Model.GridTracksRun (resolve_intrinsic_span1) over F32', k1, old_impl[:len(k1)], model1)
+                rep.cov['stage1_runner_cases'] = len(k1)
         except RuntimeError as ex:
             rep.add_broken('correspondence', 'model evaluation', str(ex)[-1500:])
     hist = {}
@@ -110,17 +154,29 @@ def run(rep, tier, seed, replay=None):
             hist[s] = hist.get(s, 0) + 1
     distinct = len(set(tuple(c) for c in cases))
     rep.cov['distinct_nontrivial'] = distinct
-    rep.cov['rule'] = ('K case = border-box grid container of definite size (length padding/border, px or % gap, any align/justify-content), '
-                       'templates of px | % | fr | auto | minmax(px|%|auto, px|%|fr|auto) | repeat(n, ..) | repeat(auto-fill|auto-fit, fixed) '
-                       'and grid-auto tracks of the same kinds, 1-5 fixed-size leaves on explicit CSS lines (span 1; lines may fall outside the '
-                       'explicit grid => implicit tracks on both sides); compared: the 3 track counts, every track size and gutter bit pattern of '
-                       'both axes, container size, every item location.  distinct = distinct C vectors; each compares >= 9 numbers.  The 11 '
-                       'corpus cases (witnesses of the refuted statements, repaired mixed-repeat count) come first.')
+    rep.cov['rule'] = ('K case = border-box root grid container (length padding/border, px or % gap, any align/justify-content, no min/max size); each '
+                       'axis either of definite size or auto under a max-content / min-content / definite available space; templates and grid-auto '
+                       'tracks of px | % | fr | auto | min-content | max-content | fit-content(px|%) | minmax(px|%|auto|min-content|max-content, '
+                       'px|%|fr|auto|min-content|max-content|fit-content) | repeat(n, ..) | repeat(auto-fill|auto-fit, fixed); 1-5 leaves of fixed px '
+                       'size (border-box, no padding/border/min/max/aspect-ratio) with px margins, overflow visible or hidden, placed on explicit CSS '
+                       'lines spanning 1-3 tracks (lines may fall outside the explicit grid => implicit tracks on both sides).  For such a leaf the '
+                       'min-/max-content contributions are its fixed size and the minimum contribution that size capped by spanned_fixed_track_limit '
+                       '(computed by the runner).  Half of the stage-2 cases additionally contain "text" leaves (no size style, measured: min-content width = glyph size, '
+                       'max-content width = n * glyph size, minimum contribution = the automatic minimum size) in grids with a definite height and rigid rows, so '
+                       'that min-content, max-content and minimum contributions differ.  Compared: the 3 track counts, every track size and gutter bit pattern of both axes, container '
+                       'size, every item location.  One third of the random cases is the stage-1 class (span 1, no intrinsic keywords), also '
+                       'evaluated by the stage-1 runner (a prefix of 150 in the quick tier).  distinct = distinct C vectors; each compares >= 9 numbers.  The 12 corpus cases '
+                       '(witnesses of the refuted statements incl. the 11.5 leak, repaired mixed-repeat count) come first.')
     rep.cov['input_distribution'] = hist
     rep.cov['samples'] = [{'case': c, 'impl': a} for c, a in list(zip(cases, impl))[:2] + list(zip(cases, impl))[-2:]]
     rep.cov['samples'].append({'theorem': 'C09_fr_fill : Forall track_ok tracks -> finite S -> snd (fr_exit tracks S) = true -> '
                                           'x_leb (Fin 1) (final_flex_factor_sum tracks S) = true -> '
                                           'x_leb S (fsum (map base_size (expand_flexible_tracks amin amax (Definite S) items tracks))) = true'})
+    rep.cov['samples'].append({'theorem': 'C09_intrinsic_preserves_fixed_partial : (forall it, In it items -> alone it i) -> nth_error tracks i = Some t -> '
+                                          'rigid inner t -> calm v t -> exists t\', nth_error (resolve_intrinsic_track_sizes contrib inner avail items tracks) i '
+                                          '= Some t\' /\\ rigid inner t\' /\\ calm v t\''})
+    rep.cov['samples'].append({'theorem': 'C09_intrinsic_monotone : Forall inv tracks -> Forall2 (fun t t\' => x_leb (base_size t) (base_size t\') = true) '
+                                          'tracks (resolve_intrinsic_track_sizes contrib inner avail items tracks)  -- for every oracle `contrib`'})
     rep.cov['samples'].append({'theorem': 'C09_tracks_match_counts : explicit counts = explicit_grid_size template inner gapf mx -> '
                                           'count_tracks (initialize_grid_tracks counts template autos gap has_items) = N.to_nat (counts_len counts) /\\ length .. = 2 * .. + 1'})
     # ---- replay of one oracle hit
@@ -166,7 +222,8 @@ def run(rep, tier, seed, replay=None):
     rc, wout = vh(binp, ['c09', 'witness'], timeout=30)
     wk = set(re.findall(r'^KNOWN \d+ (\S+)', wout, re.M))
     kf = {f['id']: f for f in known_findings('C09') if f.get('status') == 'known'}
-    cls_to_id = {'fr-floor-remaining-lt-1': 'fr-fill-floored-track', 'threshold-overshoot': 'distribute-threshold-overshoot'}
+    cls_to_id = {'fr-floor-remaining-lt-1': 'fr-fill-floored-track', 'threshold-overshoot': 'distribute-threshold-overshoot',
+                 'intrinsic-beyond-limits-leak': 'intrinsic-beyond-limits-leak'}
     for cls, fid in cls_to_id.items():
         hits = knowns.get(cls, [])
         if cls in wk and fid in kf:
